@@ -6,6 +6,7 @@ mod nursery;
 mod oracles;
 mod pipelines;
 mod threaded;
+mod tracesub;
 mod world;
 mod worlds;
 
@@ -13,6 +14,7 @@ use catalog::*;
 use explore::*;
 use serde_json::{json, Value};
 use std::collections::BTreeMap;
+use explore::parse_list;
 use std::path::PathBuf;
 use std::time::{Duration, Instant};
 
@@ -28,6 +30,8 @@ struct Args {
     verbose: bool,
     from: usize,
     to: usize,
+    depth: usize,
+    script: Vec<u16>,
 }
 
 fn parse_args() -> Args {
@@ -44,6 +48,8 @@ fn parse_args() -> Args {
         verbose: false,
         from: 0,
         to: 0,
+        depth: 0,
+        script: vec![],
     };
     if let Ok(t) = std::env::var("VERIF_TIER") {
         if t == "thorough" {
@@ -81,6 +87,14 @@ fn parse_args() -> Args {
             "--to" => {
                 i += 1;
                 args.to = a[i].parse().unwrap();
+            },
+            "--depth" => {
+                i += 1;
+                args.depth = a[i].parse().unwrap();
+            },
+            "--script" => {
+                i += 1;
+                args.script = parse_list(&a[i]);
             },
             other => {
                 eprintln!("unknown argument {other}");
@@ -195,6 +209,9 @@ fn run_check(args: &Args) -> i32 {
     let id = args.id.as_str();
     if id == "C06" {
         return run_c06(args);
+    }
+    if id == "C20" {
+        return run_c20(args);
     }
     let Some(targets) = targets_for(id, args.tier) else {
         eprintln!("unknown property {id}");
@@ -369,6 +386,9 @@ fn run_replay(args: &Args) -> i32 {
     if id == "C06" {
         return replay_c06(args, &v);
     }
+    if id == "C20" {
+        return replay_c20(args, &v);
+    }
     let wname = v["world"].as_str().unwrap().to_string();
     let script: Vec<u16> = v["script"].as_array().unwrap().iter().map(|x| x.as_u64().unwrap() as u16).collect();
     let script_n: Vec<u16> = v["script_n"].as_array().unwrap().iter().map(|x| x.as_u64().unwrap() as u16).collect();
@@ -420,6 +440,10 @@ fn main() {
     let args = parse_args();
     silent_panics();
     threaded::install_hook();
+    if std::env::var("CBMC_SUBSCRIBER").map(|s| s == "1").unwrap_or(false) && !tracesub::install() {
+        eprintln!("MACHINERY FAULT: CBMC_SUBSCRIBER=1 but no tracing subscriber could be installed");
+        std::process::exit(2);
+    }
     let code = match args.cmd.as_str() {
         "check" => {
             if args.replay.is_some() {
@@ -431,6 +455,14 @@ fn main() {
         "replay" => run_replay(&args),
         "worker" => run_worker(&args),
         "c06worker" => run_c06_worker(&args, args.from, args.to),
+        "digest" => {
+            let v = compute_digests(&args);
+            println!("{}", v);
+            0
+        },
+        "onedigest" => run_onedigest(&args),
+        "digestdump" => run_digestdump(&args),
+        "selftest" => run_selftest(&args),
         _ => {
             eprintln!("usage: cbmc check <ID> [--tier quick|thorough] [--replay FILE] [--world SUBSTR] [-v]");
             2
@@ -473,10 +505,14 @@ struct C06Acc {
     /// sig -> (program, input index, clause, detail, count)
     found: BTreeMap<String, (Vec<usize>, usize, String, String, u64)>,
     samples: Vec<String>,
+    digest_sum: u64,
+    digest_xor: u64,
 }
 
 impl C06Acc {
     fn merge(&mut self, o: C06Acc) {
+        self.digest_sum = self.digest_sum.wrapping_add(o.digest_sum);
+        self.digest_xor ^= o.digest_xor;
         self.programs += o.programs;
         self.runs += o.runs;
         self.skipped += o.skipped;
@@ -510,6 +546,7 @@ impl C06Acc {
             "nontrivial": self.nontrivial.iter().collect::<Vec<_>>(),
             "found": self.found.iter().map(|(k, v)| json!({"sig": k, "prog": v.0, "input": v.1, "clause": v.2, "detail": v.3, "count": v.4})).collect::<Vec<_>>(),
             "samples": self.samples,
+            "digest_sum": self.digest_sum, "digest_xor": self.digest_xor,
         })
     }
     fn from_json(v: &Value) -> C06Acc {
@@ -517,6 +554,8 @@ impl C06Acc {
             programs: v["programs"].as_u64().unwrap_or(0),
             runs: v["runs"].as_u64().unwrap_or(0),
             skipped: v["skipped"].as_u64().unwrap_or(0),
+            digest_sum: v["digest_sum"].as_u64().unwrap_or(0),
+            digest_xor: v["digest_xor"].as_u64().unwrap_or(0),
             ..Default::default()
         };
         a.outputs = v["outputs"].as_array().map(|x| x.iter().filter_map(|y| y.as_u64()).collect()).unwrap_or_default();
@@ -562,6 +601,11 @@ fn c06_eval(alpha: &[pipelines::Stage], inputs: &[pipelines::Input], prog: &Vec<
             },
         }
         acc.runs += 1;
+        {
+            let o = pipelines::last_outcome_hash(&stages, input, prog, ii);
+            acc.digest_sum = acc.digest_sum.wrapping_add(o);
+            acc.digest_xor ^= o.rotate_left(13);
+        }
         if let Some((clause, detail)) = pipelines::check_one(&stages, input) {
             let mut fams: Vec<&str> = stages.iter().map(stage_family).collect();
             fams.sort();
@@ -603,7 +647,7 @@ fn run_c06_worker(args: &Args, from: usize, to: usize) -> i32 {
     let thorough = args.tier == Tier::Thorough;
     let alpha = pipelines::alphabet(thorough);
     let inputs = pipelines::inputs();
-    let depth = c06_depth(args.tier);
+    let depth = if args.depth > 0 { args.depth } else { c06_depth(args.tier) };
     let na = alpha.len();
     let items = c06_items(na, depth);
     let mut acc = C06Acc::default();
@@ -629,16 +673,13 @@ fn run_c06_worker(args: &Args, from: usize, to: usize) -> i32 {
     0
 }
 
-fn run_c06(args: &Args) -> i32 {
+fn c06_explore(args: &Args, depth: usize) -> (C06Acc, bool, Option<String>) {
     use std::sync::atomic::{AtomicUsize, Ordering};
     use std::sync::Mutex;
     let t0 = Instant::now();
-    let id = "C06";
-    let known = load_known(&args.verif_dir);
     let thorough = args.tier == Tier::Thorough;
     let alpha = pipelines::alphabet(thorough);
     let inputs = pipelines::inputs();
-    let depth = c06_depth(args.tier);
     let na = alpha.len();
     let items = c06_items(na, depth);
     // chunking: keep each worker process below ~250k runs (the crate's own Arc cycles leak every
@@ -668,7 +709,7 @@ fn run_c06(args: &Args) -> i32 {
                 }
                 let exe = std::env::current_exe().unwrap();
                 let out = std::process::Command::new(exe)
-                    .args(["c06worker", "C06", "--tier", tier_name(args.tier), "--from", &(c * chunk).to_string(), "--to", &((c + 1) * chunk).to_string()])
+                    .args(["c06worker", "C06", "--tier", tier_name(args.tier), "--depth", &depth.to_string(), "--from", &(c * chunk).to_string(), "--to", &((c + 1) * chunk).to_string()])
                     .output();
                 match out {
                     Ok(o) if o.status.success() => match serde_json::from_slice::<Value>(&o.stdout) {
@@ -681,7 +722,21 @@ fn run_c06(args: &Args) -> i32 {
             });
         }
     });
-    let mut acc = total.into_inner().unwrap();
+    (total.into_inner().unwrap(), capped.load(Ordering::Relaxed), fault.into_inner().unwrap())
+}
+
+fn run_c06(args: &Args) -> i32 {
+    use std::sync::atomic::Ordering;
+    let t0 = Instant::now();
+    let id = "C06";
+    let known = load_known(&args.verif_dir);
+    let thorough = args.tier == Tier::Thorough;
+    let alpha = pipelines::alphabet(thorough);
+    let inputs = pipelines::inputs();
+    let depth = c06_depth(args.tier);
+    let na = alpha.len();
+    let (mut acc, capped, fault) = c06_explore(args, depth);
+    let _ = Ordering::Relaxed;
     let mut new_viol = vec![];
     let mut known_hits: BTreeMap<String, (String, u64)> = BTreeMap::new();
     if let Some((clause, detail)) = pipelines::check_pipe_macro() {
@@ -717,8 +772,6 @@ fn run_c06(args: &Args) -> i32 {
         new_viol.push((path, format!("from_iter({:?}) | {:?} | for_each(f): [{}] {}", inputs[*ii], stages, sig, detail)));
     }
     let wall = t0.elapsed().as_secs_f64();
-    let capped = capped.load(Ordering::Relaxed);
-    let fault = fault.into_inner().unwrap();
     if acc.samples.is_empty() {
         acc.samples.push(format!("from_iter({:?}) | {:?} | for_each(f)", inputs[20], &alpha[..depth.min(alpha.len())]));
     }
@@ -787,5 +840,379 @@ fn replay_c06(args: &Args, v: &Value) -> i32 {
             println!("no violation on this program/input");
             0
         },
+    }
+}
+
+// ------------------------------------------------------------------------------------------------
+// C20: the tracing feature is observationally inert (three builds, same exploration, same digests)
+
+fn c20_c06_depth(tier: Tier) -> usize {
+    if tier == Tier::Quick {
+        2
+    } else {
+        3
+    }
+}
+
+/// Explore every C20 world in this build and return per-world counts and digests.
+fn compute_digests(args: &Args) -> Value {
+    let sub = std::env::var("CBMC_SUBSCRIBER").map(|s| s == "1").unwrap_or(false);
+    let targets = targets_for("C20", args.tier).unwrap();
+    let mut a2 = Args { id: "C20".into(), ..clone_args(args) };
+    a2.cap_s = args.cap_s;
+    let mut pool = Pool::new(args.threads, worker_args(&a2), u64::MAX);
+    let deadline = Instant::now() + Duration::from_secs(args.cap_s);
+    let mut worlds = vec![];
+    let mut fault: Option<String> = None;
+    let mut samples: Vec<Value> = vec![];
+    for (widx, t) in targets.iter().enumerate() {
+        let left = deadline.saturating_duration_since(Instant::now());
+        let st = explore(&**t, widx, &mut pool, left.max(Duration::from_secs(1)), samples.len() < 2);
+        if let Some(m) = &st.machinery_fault {
+            fault = Some(m.clone());
+        }
+        if st.capped {
+            fault = Some(format!("wall-clock cap hit inside world {}", t.name()));
+        }
+        for s in st.samples.iter() {
+            if samples.len() < 2 {
+                samples.push(json!({"world": t.name(), "history": s}));
+            }
+        }
+        worlds.push(json!({
+            "world": t.name(), "idx": widx, "executions": st.execs, "states": st.states,
+            "digest_sum": st.digest_sum, "digest_xor": st.digest_xor,
+            "distinct_outcomes": st.outcomes.len(), "distinct_nontrivial": st.nontrivial.len(), "panics": st.panics,
+        }));
+    }
+    pool.shutdown();
+    let (acc, capped, f2) = c06_explore(&a2, c20_c06_depth(args.tier));
+    if capped {
+        fault = Some("wall-clock cap hit in the pipeline digest".into());
+    }
+    if let Some(f) = f2 {
+        fault = Some(f);
+    }
+    json!({
+        "tracing_compiled_in": tracesub::tracing_compiled_in(),
+        "subscriber_installed": sub,
+        "subscriber_events_seen_by_parent": tracesub::events(),
+        "worlds": worlds,
+        "pipelines": {"programs": acc.programs, "runs": acc.runs, "digest_sum": acc.digest_sum, "digest_xor": acc.digest_xor, "violations": acc.found.len()},
+        "fault": fault,
+        "samples": samples,
+    })
+}
+
+fn clone_args(a: &Args) -> Args {
+    Args {
+        cmd: a.cmd.clone(),
+        id: a.id.clone(),
+        tier: a.tier,
+        threads: a.threads,
+        verif_dir: a.verif_dir.clone(),
+        replay: a.replay.clone(),
+        cap_s: a.cap_s,
+        only_world: a.only_world.clone(),
+        verbose: a.verbose,
+        from: a.from,
+        to: a.to,
+        depth: a.depth,
+        script: a.script.clone(),
+    }
+}
+
+fn other_build_digests(args: &Args, bin: &str, subscriber: bool) -> Result<Value, String> {
+    let out = std::process::Command::new(bin)
+        .args(["digest", "C20", "--tier", tier_name(args.tier), "--threads", &args.threads.to_string(), "--cap", &args.cap_s.to_string()])
+        .env("CBMC_SUBSCRIBER", if subscriber { "1" } else { "0" })
+        .output()
+        .map_err(|e| format!("cannot run {bin}: {e}"))?;
+    if !out.status.success() {
+        return Err(format!("{bin} digest failed: {:?} {}", out.status, String::from_utf8_lossy(&out.stderr)));
+    }
+    serde_json::from_slice::<Value>(&out.stdout).map_err(|e| format!("bad digest output of {bin}: {e}"))
+}
+
+/// per-execution digests of one world in DFS order: lines "picks digest"
+fn run_digestdump(args: &Args) -> i32 {
+    let targets = targets_for("C20", args.tier).unwrap();
+    let t = &targets[args.from];
+    let mut stack: Vec<(Vec<u16>, Vec<u16>)> = vec![(vec![], vec![])];
+    let out = std::io::stdout();
+    let mut out = out.lock();
+    use std::io::Write;
+    while let Some((s, n)) = stack.pop() {
+        let ex = t.run(&s, &n, false);
+        let picks: Vec<String> = ex.choices.iter().map(|c| c.pick.to_string()).collect();
+        let _ = writeln!(out, "{} {}", if picks.is_empty() { "-".to_string() } else { picks.join(",") }, t.digest(&ex));
+        let plen = s.len();
+        let dbound = t.dev_bound();
+        let mut devs = 0;
+        let mut kids = vec![];
+        for i in 0..ex.choices.len() {
+            let c = &ex.choices[i];
+            if i >= plen {
+                for alt in 1..c.n {
+                    let dc = if c.kind == exec::Kind::Dev { 1 } else { 0 };
+                    if devs + dc > dbound {
+                        continue;
+                    }
+                    let mut cs: Vec<u16> = ex.choices[..i].iter().map(|c| c.pick).collect();
+                    cs.push(alt);
+                    kids.push((cs, vec![]));
+                }
+            }
+            if c.pick != 0 && c.kind == exec::Kind::Dev {
+                devs += 1;
+            }
+        }
+        while let Some(k) = kids.pop() {
+            stack.push(k);
+        }
+    }
+    0
+}
+
+/// one execution of one C20 world in this build: prints the digest and the trace
+fn run_onedigest(args: &Args) -> i32 {
+    let targets = targets_for("C20", args.tier).unwrap();
+    let t = &targets[args.from];
+    let ex = t.run(&args.script, &[], false);
+    println!("DIGEST {}", t.digest(&ex));
+    for l in exec::render_trace(&ex) {
+        println!("{l}");
+    }
+    println!("calls {:?} panicked {}", ex.calls, ex.panicked);
+    0
+}
+
+fn first_difference(args: &Args, bins: &[(String, bool)], widx: usize) -> Option<(Vec<u16>, String)> {
+    // own dump vs each other build's dump; returns the first differing script
+    let dump = |bin: &str, sub: bool| -> Vec<String> {
+        let out = std::process::Command::new(bin)
+            .args(["digestdump", "C20", "--tier", tier_name(args.tier), "--from", &widx.to_string()])
+            .env("CBMC_SUBSCRIBER", if sub { "1" } else { "0" })
+            .output();
+        match out {
+            Ok(o) => String::from_utf8_lossy(&o.stdout).lines().map(|l| l.to_string()).collect(),
+            Err(_) => vec![],
+        }
+    };
+    let me = std::env::current_exe().unwrap().to_string_lossy().to_string();
+    let a = dump(&me, false);
+    for (bin, sub) in bins {
+        let b = dump(bin, *sub);
+        for (k, la) in a.iter().enumerate() {
+            let lb = b.get(k).cloned().unwrap_or_default();
+            if *la != lb {
+                let picks = la.split_whitespace().next().unwrap_or("-");
+                let picks_b = lb.split_whitespace().next().unwrap_or("-");
+                return Some((parse_list(picks), format!("execution #{k}: plain build `{la}` vs {} `{lb}` (choices {picks} vs {picks_b})", if *sub { "tracing+subscriber" } else { "tracing" })));
+            }
+        }
+        if b.len() != a.len() {
+            return Some((vec![], format!("plain build explored {} executions, the other build {}", a.len(), b.len())));
+        }
+    }
+    None
+}
+
+fn run_c20(args: &Args) -> i32 {
+    let t0 = Instant::now();
+    let id = "C20";
+    let Ok(tbin) = std::env::var("CBMC_TRACING_BIN") else {
+        eprintln!("MACHINERY FAULT: CBMC_TRACING_BIN not set (use ./check C20)");
+        return 2;
+    };
+    if tracesub::tracing_compiled_in() {
+        eprintln!("MACHINERY FAULT: C20 must be driven by the plain build");
+        return 2;
+    }
+    let known = load_known(&args.verif_dir);
+    let a = compute_digests(args);
+    let b = other_build_digests(args, &tbin, false);
+    let c = other_build_digests(args, &tbin, true);
+    let (b, c) = match (b, c) {
+        (Ok(b), Ok(c)) => (b, c),
+        (Err(e), _) | (_, Err(e)) => {
+            eprintln!("MACHINERY FAULT: {e}");
+            return 2;
+        },
+    };
+    let mut machinery: Option<String> = None;
+    for (v, name) in [(&a, "plain"), (&b, "tracing"), (&c, "tracing+subscriber")] {
+        if let Some(f) = v["fault"].as_str() {
+            machinery = Some(format!("{name} build: {f}"));
+        }
+    }
+    if b["tracing_compiled_in"] != json!(true) || c["subscriber_installed"] != json!(true) || c["subscriber_events_seen_by_parent"].as_u64().unwrap_or(0) == 0 {
+        machinery = Some("the tracing builds did not run in the expected configuration (feature on / subscriber recording events)".into());
+    }
+    let wa = a["worlds"].as_array().unwrap();
+    let mut new_viol = vec![];
+    let mut known_hits: BTreeMap<String, (String, u64)> = BTreeMap::new();
+    let mut total_states = 0u64;
+    let mut total_execs = 0u64;
+    let mut outcomes = 0u64;
+    let mut nontrivial = 0u64;
+    let mut per_world = vec![];
+    let dir = args.verif_dir.join("replays");
+    let _ = std::fs::create_dir_all(&dir);
+    for (k, w) in wa.iter().enumerate() {
+        let wb = &b["worlds"][k];
+        let wc = &c["worlds"][k];
+        total_states += w["states"].as_u64().unwrap_or(0);
+        total_execs += w["executions"].as_u64().unwrap_or(0);
+        outcomes += w["distinct_outcomes"].as_u64().unwrap_or(0);
+        nontrivial += w["distinct_nontrivial"].as_u64().unwrap_or(0);
+        let same = |x: &Value| ["world", "executions", "states", "digest_sum", "digest_xor"].iter().all(|f| x[*f] == w[*f]);
+        let ok = same(wb) && same(wc);
+        per_world.push(json!({"world": w["world"], "executions": w["executions"], "states": w["states"], "equal_in_all_three_builds": ok}));
+        if !ok && machinery.is_none() {
+            let family: String = w["world"].as_str().unwrap_or("").split(|c: char| c == '(' || c == ' ').next().unwrap_or("").to_lowercase();
+            let sig = format!("{family}/builds-differ");
+            if let Some(kf) = known.iter().find(|kf| kf.status == "known" && kf.property == id && kf.signature == sig) {
+                known_hits.insert(sig.clone(), (kf.what.clone(), 1));
+                continue;
+            }
+            let diff = first_difference(args, &[(tbin.clone(), false), (tbin.clone(), true)], k);
+            let (script, detail) = diff.unwrap_or((vec![], "digests differ but no single execution could be isolated".into()));
+            use std::hash::{Hash, Hasher};
+            let mut h = std::collections::hash_map::DefaultHasher::new();
+            (&sig, &script, k).hash(&mut h);
+            let path = dir.join(format!("C20-{:016x}.json", h.finish()));
+            let v = json!({"property": id, "tier": tier_name(args.tier), "world": w["world"], "world_idx": k, "signature": sig, "script": script, "detail": detail,
+                "plain": w, "tracing": wb, "tracing_subscriber": wc});
+            std::fs::write(&path, serde_json::to_string_pretty(&v).unwrap()).expect("write replay");
+            new_viol.push((path, format!("{} [{}] {}", w["world"], sig, detail)));
+        }
+    }
+    // pipelines
+    let pa = &a["pipelines"];
+    let pipes_ok = ["programs", "runs", "digest_sum", "digest_xor"].iter().all(|f| pa[*f] == b["pipelines"][*f] && pa[*f] == c["pipelines"][*f]);
+    if !pipes_ok && machinery.is_none() {
+        let sig = "pipeline/builds-differ".to_string();
+        if let Some(kf) = known.iter().find(|kf| kf.status == "known" && kf.property == id && kf.signature == sig) {
+            known_hits.insert(sig.clone(), (kf.what.clone(), 1));
+        } else {
+            let path = dir.join("C20-pipelines.json");
+            let v = json!({"property": id, "tier": tier_name(args.tier), "world": "pipelines", "signature": sig, "plain": pa, "tracing": b["pipelines"], "tracing_subscriber": c["pipelines"]});
+            std::fs::write(&path, serde_json::to_string_pretty(&v).unwrap()).expect("write replay");
+            new_viol.push((path, format!("pipelines [{sig}] {} vs {} vs {}", pa, b["pipelines"], c["pipelines"])));
+        }
+    }
+    let wall = t0.elapsed().as_secs_f64();
+    let ev = json!({
+        "property_id": id, "tier": tier_name(args.tier), "seed": seed(), "level": "model_checking",
+        "coverage": {
+            "states": total_states + pa["runs"].as_u64().unwrap_or(0),
+            "transitions": (total_states + pa["runs"].as_u64().unwrap_or(0)).saturating_sub(wa.len() as u64),
+            "traces_validated_against_impl": 3 * (total_execs + pa["runs"].as_u64().unwrap_or(0)),
+            "evaluations": 3 * (total_execs + pa["runs"].as_u64().unwrap_or(0)),
+            "executions_per_build": total_execs,
+            "pipeline_runs_per_build": pa["runs"],
+            "builds_compared": ["no tracing feature", "tracing feature, no subscriber", "tracing feature, TRACE-level recording subscriber"],
+            "subscriber_events_recorded_by_parent_process": c["subscriber_events_seen_by_parent"],
+            "distinct_nontrivial": nontrivial,
+            "distinct_outcomes": outcomes,
+            "rule": "the same exhaustive exploration (C17 worlds + unary/interval/pullable worlds + all pipelines up to the C20 depth) is executed by three builds of the harness; per world an order-independent digest over every execution's choice sequence, full message trace at every probe/puppet/tap, closure-invocation counters and panic flag must be equal, as must the execution and state counts; distinct_* are summed per world",
+            "samples": a["samples"],
+            "worlds": per_world,
+            "exhaustive": machinery.is_none(),
+        },
+        "assumptions": ["same bounds as C17 quick/thorough; value types implement Debug; the subscriber formats every field of every event and span"],
+        "wall_s": (wall * 100.0).round() / 100.0,
+        "violations": new_viol.len(),
+    });
+    let evdir = args.verif_dir.join("evidence");
+    let _ = std::fs::create_dir_all(&evdir);
+    std::fs::write(evdir.join("C20.json"), serde_json::to_string_pretty(&ev).unwrap()).expect("write evidence");
+    for (sig, (what, n)) in &known_hits {
+        println!("KNOWN-FINDING: property={id} {what} [signature {sig}; {n} worlds]");
+    }
+    for (p, d) in &new_viol {
+        println!("VIOLATION property={id} replay={}", p.display());
+        println!("  {d}");
+    }
+    println!("C20 {}: {} executions and {} pipeline runs per build x 3 builds, {} worlds, {} new violation signature(s), {:.1}s", tier_name(args.tier), total_execs, pa["runs"], wa.len(), new_viol.len(), wall);
+    if let Some(m) = machinery {
+        eprintln!("MACHINERY FAULT: {m}");
+        return 2;
+    }
+    if !new_viol.is_empty() {
+        return 1;
+    }
+    0
+}
+
+fn replay_c20(args: &Args, v: &Value) -> i32 {
+    let Ok(tbin) = std::env::var("CBMC_TRACING_BIN") else {
+        eprintln!("MACHINERY FAULT: CBMC_TRACING_BIN not set (use ./check C20 --replay FILE)");
+        return 2;
+    };
+    let Some(widx) = v["world_idx"].as_u64() else {
+        println!("pipelines digest mismatch: re-run ./check C20");
+        return 1;
+    };
+    let script: Vec<u16> = v["script"].as_array().map(|a| a.iter().map(|x| x.as_u64().unwrap_or(0) as u16).collect()).unwrap_or_default();
+    let tier = v["tier"].as_str().unwrap_or("quick");
+    let sc = if script.is_empty() { "-".to_string() } else { script.iter().map(|x| x.to_string()).collect::<Vec<_>>().join(",") };
+    let me = std::env::current_exe().unwrap().to_string_lossy().to_string();
+    let run = |bin: &str, sub: bool| -> String {
+        let o = std::process::Command::new(bin)
+            .args(["onedigest", "C20", "--tier", tier, "--from", &widx.to_string(), "--script", &sc])
+            .env("CBMC_SUBSCRIBER", if sub { "1" } else { "0" })
+            .output()
+            .expect("run build");
+        String::from_utf8_lossy(&o.stdout).to_string()
+    };
+    let a = run(&me, false);
+    let b = run(&tbin, false);
+    let c = run(&tbin, true);
+    println!("--- plain build\n{a}--- tracing build\n{b}--- tracing build with subscriber\n{c}");
+    if a != b || a != c {
+        println!("VIOLATION property=C20 replay={}", args.replay.as_ref().unwrap().display());
+        1
+    } else {
+        println!("no difference on this history");
+        0
+    }
+}
+
+// ------------------------------------------------------------------------------------------------
+// engine self-validation (part of setup and of both tiers of C18)
+
+fn run_selftest(args: &Args) -> i32 {
+    if !threaded::hooks_compiled_in() {
+        eprintln!("selftest: this build has no scheduler hooks (use the verif variant)");
+    }
+    let targets = targets_for("SELFTEST", args.tier).unwrap();
+    let mut pool = Pool::new(1, vec![], u64::MAX);
+    let mut res = vec![];
+    for (i, t) in targets.iter().enumerate() {
+        let st = explore(&**t, i, &mut pool, Duration::from_secs(60), false);
+        res.push(st);
+    }
+    let mut ok = true;
+    let mut say = |c: bool, m: &str| {
+        println!("selftest: {} {}", if c { "ok  " } else { "FAIL" }, m);
+        if !c {
+            ok = false;
+        }
+    };
+    say(res[0].violating_execs == 0, "load/store counter: no lost update at preemption bound 0");
+    say(res[1].violating_execs > 0, "load/store counter: lost update found at preemption bound 1");
+    say(res[2].execs == 252, &format!("load/store counter unbounded: C(10,5)=252 schedules enumerated (got {})", res[2].execs));
+    say(res[3].execs == 20 && res[3].violating_execs == 0, &format!("fetch_add counter unbounded: C(6,3)=20 schedules, none violating (got {}, {})", res[3].execs, res[3].violating_execs));
+    if let Some(f) = res[1].found.values().next() {
+        let a = replay(&*targets[1], &f.script, &f.script_n);
+        let b = replay(&*targets[1], &f.script, &f.script_n);
+        say(a.trace == b.trace && targets[1].check(&a).is_some(), "the failing schedule replays twice with identical traces and fails again");
+    }
+    if ok {
+        0
+    } else {
+        2
     }
 }
